@@ -114,7 +114,7 @@ PROPS = {
                 "{0..8,16,17,64,127..129,200,255,256,uniform} x {sparse, dense, dense with recipe scalars}; scalar recipes "
                 "{0,1,small,r-1..r-4,2^k,2^k-1,limb patterns,8/16-bit window recipes with carry chains,uniform}; non-trivial = "
                 "length != 256 or a recipe coefficient; distinct by the full case." + NOISE_NOTE
-                + ' Round-4 addition: every scalar s = 2*d*2^(w*top) - r in (0, r) at positions 0..6, 100, 255 (3710 values per 16-bit position): after recoding the running sum equals the table entry added last, so the final addition is a doubling. Vector mode 'allsame': every coefficient equal.',
+                + ' Round-4 addition: every scalar s = 2*d*2^(w*top) - r in (0, r) at positions 0..6, 100, 255 (3710 values per 16-bit position): after recoding the running sum equals the table entry added last, so the final addition is a doubling. Vector mode allsame: every coefficient equal.',
         "oracle": "reference sum v_i*G_i over the reference CRS (incremental walk re-derived every 1009th value by a direct "
                   "math/big scalar multiplication), compared as group element and as compressed bytes; metamorphic laws "
                   "Commit(a+b)=Commit(a)+Commit(b), Commit(k*a)=k*Commit(a), coefficient update = +delta*G_i, agreement with "
